@@ -11,8 +11,6 @@ def record_suite():
     os.makedirs(os.path.join(ROOT, "build"), exist_ok=True)
     out = os.path.join(ROOT, "build", "suite_traces.%d.json" % os.getpid())
     env = dict(os.environ, PEDAL_EDU_PEDAL_VERIF="1", PYTHONPATH=ROOT, VERIF_SUITE_TRACES=out, PYTHONHASHSEED="0")
-    p = subprocess.run(["/venv/bin/python", "-m", "pytest", "-q", "-p", "no:cacheprovider", "-p", "bind.suite_plugin", "-x", "--co", "-q"],
-                       cwd=REPO, env=env, stdout=subprocess.PIPE, stderr=subprocess.STDOUT, text=True, timeout=600)
     p = subprocess.run(["/venv/bin/python", "-m", "pytest", "-q", "-p", "no:cacheprovider", "-p", "bind.suite_plugin"],
                        cwd=REPO, env=env, stdout=subprocess.PIPE, stderr=subprocess.STDOUT, text=True, timeout=900)
     try:
